@@ -181,6 +181,19 @@ def routing(ck, prog):
                             out.add(bb)
             return sorted(out)
         tc, fc = reads_field("true_child"), reads_field("false_child")
+        # the children copied out before the comparison (`match (node.true_child, node.false_child) { (t, f) => .. t.unwrap() .. }`):
+        # the site that chooses a child is then the unwrap / expect / push of the local that holds the field's value
+        for bb_, t_ in bp.calls():
+            f_ = t_.get("f")
+            if f_ and f_["path"].split("::")[-1] in ("unwrap", "expect", "push_back", "unwrap_or") and t_["args"]:
+                try:
+                    nm_ = child_of(t_["args"][-1] if f_["path"].endswith("push_back") else t_["args"][0])
+                except Exception:
+                    nm_ = None
+                if nm_ == "true_child" and bb_ not in tc:
+                    tc = sorted(set(tc) | {bb_})
+                if nm_ == "false_child" and bb_ not in fc:
+                    fc = sorted(set(fc) | {bb_})
         lhs_subj = True
         c = c2
         rel = r2
